@@ -477,6 +477,8 @@ impl<'me> ClaimGuard<'me> {
             .expect("key claimed twice?")
             .remove()
             .0;
+        #[cfg(salsa_verif)]
+        let verif_tok_before = self.zalsa_local.verif_token_bits();
         let result = if self.zalsa_local.should_trigger_local_cancellation() {
             WaitResult::Cancelled
         } else {
@@ -488,7 +490,22 @@ impl<'me> ClaimGuard<'me> {
             result
         );
         #[cfg(salsa_verif)]
-        verif::line("release_panicking", self.database_key_index(), &format!("{result:?}"));
+        {
+            // raw token bits (0b01 = cancel requested, 0b10 = disabled); another thread may set
+            // the request bit concurrently, so the value is only reported when the loads before
+            // and after the decision agree (`tok=?` otherwise)
+            let tok_after = self.zalsa_local.verif_token_bits();
+            let tok = if verif_tok_before == tok_after {
+                tok_after.to_string()
+            } else {
+                "?".to_string()
+            };
+            verif::line(
+                "release_panicking",
+                self.database_key_index(),
+                &format!("{result:?} tok={tok}"),
+            );
+        }
         self.release(state, result);
     }
 
